@@ -38,7 +38,7 @@ func lemmaKeyOrder(k1 []byte, t1 uint64, k2 []byte, t2 uint64) int {
 //@   requires v != nil && len(v.Value) < 1<<31
 //@   ensures[meta] result.Meta == old(v.Meta) && result.UserMeta == old(v.UserMeta)
 //@   ensures[expiry] result.ExpiresAt == old(v.ExpiresAt)
-//@   ensures[value] bytes(result.Value) == bytes(old(v.Value))
+//@   ensures[value] bytes(result.Value) == old(bytes(v.Value))
 func lemmaValueStructRoundTrip(v *ValueStruct) ValueStruct {
 	buf := make([]byte, v.EncodedSize())
 	n := v.Encode(buf)
